@@ -6,6 +6,12 @@ use std::panic::catch_unwind;
 fn big(v: &Value) -> BigInt { v.as_str().and_then(|s| s.parse().ok()).unwrap_or_else(|| 0.to_bigint().unwrap()) }
 fn bytes(v: &Value) -> Vec<u8> { v.as_array().map(|a| a.iter().map(|x| x.as_u64().unwrap_or(0) as u8).collect()).unwrap_or_default() }
 
+// inputs of recorded (open) known findings are skipped by the enumerators so that a DIFFERENT
+// failure of the same check is still found; they are re-confirmed separately with `input`
+fn skip_list() -> Vec<Value> {
+    std::env::var("VERIF_SKIP").ok().and_then(|s| serde_json::from_str::<Vec<Value>>(&s).ok()).unwrap_or_default()
+}
+fn skipped(input: &Value) -> bool { skip_list().iter().any(|k| k == input) }
 fn nf(how: &str) -> Value { json!({"found": false, "how": how}) }
 fn hit(input: Value, expected: String, observed: String, how: &str) -> Value {
     json!({"found": true, "engine": "E3 enumerator on the real crate", "input": input, "expected": expected, "observed": observed, "how": how})
@@ -154,6 +160,19 @@ fn optimizer_vs_consensus(prog: &[u8], envsel: u8) -> Option<Value> {
         _ => None,
     }
 }
+// insert (include DIALECT) right after the mod's argument list
+fn with_dialect(body: &str, d: &str) -> String {
+    let start = body.find("(mod ").map(|i| i + 5).unwrap_or(0);
+    let bytes = body.as_bytes();
+    let mut i = start;
+    while i < bytes.len() && bytes[i] == b' ' { i += 1; }
+    let end = if i < bytes.len() && bytes[i] == b'(' {
+        let mut depth = 0; let mut j = i;
+        loop { if bytes[j] == b'(' { depth += 1; } else if bytes[j] == b')' { depth -= 1; if depth == 0 { break; } } j += 1; }
+        j + 1
+    } else { let mut j = i; while j < bytes.len() && bytes[j] != b' ' { j += 1; } j };
+    format!("{} (include {}){}", &body[..end], d, &body[end..])
+}
 fn hexv(hex: &str) -> Vec<u8> { (0..hex.len() / 2).map(|i| u8::from_str_radix(&hex[2 * i..2 * i + 2], 16).unwrap()).collect() }
 fn optimizer_programs() -> Vec<Vec<u8>> {
     let mut v: Vec<Vec<u8>> = vec![];
@@ -273,8 +292,9 @@ fn deps_case(dialect: &str, shadow: bool) -> Option<Value> {
     std::fs::write(d2.join("deeper.clib"), "((defconstant DEEP 3))").ok()?;
     std::fs::write(d2.join("blob.bin"), [1u8, 2, 3]).ok()?;
     std::fs::write(d2.join("data.hex"), "ff0180").ok()?;
+    std::fs::write(d2.join("*starred*.clib"), "((defconstant STARRED 9))").ok()?;
     if shadow { std::fs::write(d1.join("inc.clib"), "((defconstant FIRST 1))").ok()?; }
-    let src = format!("(mod (X) (include {}) (include inc.clib) (embed-file blob bin blob.bin) (embed-file hx hex data.hex) (+ X 1))", dialect);
+    let src = format!("(mod (X) (include {}) (include inc.clib) (include *starred*.clib) (embed-file blob bin blob.bin) (embed-file hx hex data.hex) (+ X 1))", dialect);
     let opts: Rc<dyn CompilerOpts> = Rc::new(DefaultCompilerOpts::new("main.clsp"));
     let opts = opts.set_search_paths(&[d1.to_string_lossy().to_string(), d2.to_string_lossy().to_string()]);
     let got = gather_dependencies(opts, "main.clsp", &src);
@@ -285,12 +305,14 @@ fn deps_case(dialect: &str, shadow: bool) -> Option<Value> {
             let mut want: Vec<String> = vec![];
             if shadow { want.push(d1.join("inc.clib").to_string_lossy().to_string()); }
             else { want.push(d2.join("inc.clib").to_string_lossy().to_string()); }
+            want.push(d2.join("*starred*.clib").to_string_lossy().to_string());
             want.push(d2.join("blob.bin").to_string_lossy().to_string());
             want.push(d2.join("data.hex").to_string_lossy().to_string());
             let missing: Vec<&String> = want.iter().filter(|w| !names.contains(w)).collect();
+            let pseudo_listed = names.iter().any(|n| n.starts_with('*'));
             let wrong_shadow = shadow && names.contains(&d2.join("inc.clib").to_string_lossy().to_string());
-            if !missing.is_empty() || wrong_shadow {
-                Some(hit(json!({"source": src, "shadow": shadow, "dirs": ["first", "second"]}), format!("listing contains {:?}", want), format!("listing is {:?}", names), "gather_dependencies on a temp directory tree (files read: inc.clib [deeper.clib] blob.bin data.hex)"))
+            if !missing.is_empty() || wrong_shadow || pseudo_listed {
+                Some(hit(json!({"source": src, "shadow": shadow, "dirs": ["first", "second"]}), format!("listing contains {:?}", want), format!("listing is {:?}", names), "gather_dependencies on a temp directory tree (files read: inc.clib *starred*.clib blob.bin data.hex)"))
             } else { None }
         }
     };
@@ -421,13 +443,232 @@ fn chk_entry_points(src: &str, optimize: bool) -> Option<Value> {
     }
 }
 
+// ---- C13: symbol table entries describe the emitted program
+fn chk_symbols(source: &str, functions: &[(&str, &str)], complete: bool) -> Option<Value> {
+    use chialisp::classic::clvm_tools::stages::stage_0::DefaultProgramRunner;
+    use chialisp::compiler::clvm::sha256tree;
+    use chialisp::compiler::compiler::{compile_file, extract_program_and_env, path_to_function, DefaultCompilerOpts};
+    use chialisp::compiler::comptypes::CompilerOpts;
+    use chialisp::compiler::sexp::{parse_sexp, SExp};
+    use chialisp::compiler::srcloc::Srcloc;
+    use std::borrow::Borrow;
+    use std::collections::HashMap;
+    use std::rc::Rc;
+    fn at(p: &num_bigint::BigInt, s: Rc<SExp>) -> Option<Rc<SExp>> {
+        let mut p = p.clone(); let mut s = s; let one = num_bigint::BigInt::from(1);
+        while p > one { let right = (&p % 2) == one; p >>= 1; s = match s.borrow() { SExp::Cons(_, a, b) => if right { b.clone() } else { a.clone() }, _ => return None }; }
+        Some(s)
+    }
+    let src = source.to_string();
+    let funs: Vec<(String, String)> = functions.iter().map(|(n, a)| (n.to_string(), a.to_string())).collect();
+    let res = catch_unwind(move || {
+        let mut a = clvmr::Allocator::new();
+        let runner = Rc::new(DefaultProgramRunner::new());
+        let opts: Rc<dyn CompilerOpts> = Rc::new(DefaultCompilerOpts::new("*replay*"));
+        let mut symbols = HashMap::new();
+        let program = match compile_file(&mut a, runner, opts, &src, &mut symbols) { Ok(p) => Rc::new(p), Err(e) => return Some(format!("did not compile: {}", e.1)) };
+        let env = match extract_program_and_env(program.clone()) { Some((_, e)) => e, None => return Some("no environment in emitted program".to_string()) };
+        let want: HashMap<String, String> = funs.iter().map(|(n, ar)| (n.clone(), parse_sexp(Srcloc::start("*a*"), ar.bytes()).unwrap()[0].to_string())).collect();
+        let mut seen = 0;
+        for (key, value) in symbols.iter() {
+            if key.len() != 64 { continue; }
+            let expected_args = match want.get(value) { Some(x) => x, None => continue };
+            seen += 1;
+            let hash: Vec<u8> = (0..32).map(|i| u8::from_str_radix(&key[2 * i..2 * i + 2], 16).unwrap()).collect();
+            match path_to_function(env.clone(), &hash) {
+                None => return Some(format!("entry {} -> {}: no code with that hash in the emitted program", key, value)),
+                Some(p) => match at(&p, env.clone()) { Some(code) if sha256tree(code.clone()) == hash => {}, _ => return Some(format!("entry {} -> {}: path {} does not address code with that hash", key, value, p)) },
+            }
+            match symbols.get(&format!("{}_arguments", key)) {
+                Some(rec) if rec == expected_args => {}
+                other => return Some(format!("entry {} is named {} (arguments {}), but the arguments recorded under it are {:?}", key, value, expected_args, other)),
+            }
+        }
+        if complete { for (n, _) in funs.iter() { if !symbols.values().any(|v| v == n) { return Some(format!("function {} has no symbol entry", n)); } } }
+        if seen == 0 { return Some("no function entries at all".to_string()); }
+        None
+    });
+    match res {
+        Ok(Some(o)) => Some(hit(json!({"source": source}), "every named entry: code with that hash occurs in the program and the recorded arguments are that function's".into(), o, "compile_file (no optimisation) + path_to_function + sha256tree")),
+        Err(_) => Some(hit(json!({"source": source}), "no panic".into(), "panic".into(), "compile / symbol lookup panicked")),
+        _ => None,
+    }
+}
+
+fn chk_bigint_from_bytes(b: &[u8], signed: bool) -> Option<Value> {
+    use chialisp::classic::clvm::__type_compatibility__::{Bytes, BytesFromType};
+    use chialisp::classic::clvm::casts::{bigint_from_bytes, TConvertOption};
+    let got = bigint_from_bytes(&Bytes::new(Some(BytesFromType::Raw(b.to_vec()))), if signed { Some(TConvertOption { signed: true }) } else { None });
+    let want = if signed { be_signed(b) } else { be_unsigned(b) };
+    if got != want { Some(hit(json!({"bytes": b, "signed": signed}), want.to_string(), got.to_string(), "casts::bigint_from_bytes vs big-endian spec")) } else { None }
+}
+
+// ---- C02: builds that differ only in optimisation / dialect level return the same value
+fn compile_and_run(src: &str, optimize: bool, args_text: &str) -> Result<Option<Vec<u8>>, String> {
+    use chialisp::classic::clvm_tools::binutils::assemble;
+    use chialisp::classic::clvm_tools::clvmc::compile_clvm_text_maybe_opt;
+    use chialisp::classic::clvm_tools::stages::stage_0::{DefaultProgramRunner, TRunProgram};
+    use chialisp::compiler::compiler::DefaultCompilerOpts;
+    use chialisp::compiler::comptypes::CompilerOpts;
+    use std::collections::HashMap;
+    use std::rc::Rc;
+    let mut a = clvmr::Allocator::new();
+    let opts: Rc<dyn CompilerOpts> = Rc::new(DefaultCompilerOpts::new("*replay*"));
+    let mut syms = HashMap::new();
+    let prog = compile_clvm_text_maybe_opt(&mut a, optimize, opts, &mut syms, src, "*replay*", false).map_err(|e| format!("{:?}", e))?;
+    let args = assemble(&mut a, args_text).map_err(|e| format!("{:?}", e))?;
+    let runner = DefaultProgramRunner::new();
+    Ok(runner.run_program(&mut a, prog, args, None).ok().and_then(|r| clvmr::serde::node_to_bytes(&a, r.1).ok()))
+}
+fn chk_opt_levels(body: &str, args_text: &str) -> Option<Value> {
+    let b = body.to_string(); let at = args_text.to_string();
+    let res = catch_unwind(move || {
+        let mut results: Vec<(String, Option<Vec<u8>>)> = vec![];
+        for d in ["*standard-cl-21*", "*standard-cl-22*", "*standard-cl-23*"] { for o in [false, true] {
+            let src = with_dialect(&b, d);
+            match compile_and_run(&src, o, &at) { Ok(v) => results.push((format!("{} -O={}", d, o), v)), Err(e) => results.push((format!("{} -O={} COMPILE ERROR {}", d, o, e), None)) }
+        } }
+        let vals: Vec<&(String, Option<Vec<u8>>)> = results.iter().filter(|r| r.1.is_some()).collect();
+        for w in vals.windows(2) { if w[0].1 != w[1].1 { return Some(format!("{} -> {:?} but {} -> {:?}", w[0].0, w[0].1, w[1].0, w[1].1)); } }
+        if !vals.is_empty() && vals.len() != results.len() { let bad: Vec<&String> = results.iter().filter(|r| r.1.is_none()).map(|r| &r.0).collect(); return Some(format!("some builds return a value, these do not: {:?}", bad)); }
+        None
+    });
+    match res {
+        Ok(Some(o)) => Some(hit(json!({"program": body, "args": args_text}), "all builds that return a value return the same value, and none fails where another returns".into(), o, "compile_clvm_text_maybe_opt x {cl21, cl22, cl23} x {-O off, on}, run with clvmr")),
+        Err(_) => Some(hit(json!({"program": body}), "no panic".into(), "panic".into(), "compile or run panicked")),
+        _ => None,
+    }
+}
+
+// ---- C01 / C03: compiled code returns what the source means (expected values worked out by hand)
+fn chk_meaning(body: &str, dialect: Option<&str>, args_text: &str, expected_text: &str) -> Option<Value> {
+    use chialisp::classic::clvm_tools::binutils::assemble;
+    let src = match dialect { Some(d) => with_dialect(body, d), None => body.to_string() };
+    let (s2, a2, e2) = (src.clone(), args_text.to_string(), expected_text.to_string());
+    let res = catch_unwind(move || {
+        let got = compile_and_run(&s2, false, &a2);
+        let mut a = clvmr::Allocator::new();
+        let want = assemble(&mut a, &e2).ok().and_then(|n| clvmr::serde::node_to_bytes(&a, n).ok());
+        (got, want)
+    });
+    match res {
+        Ok((Ok(g), w)) if g == w => None,
+        Ok((g, w)) => Some(hit(json!({"source": src, "args": args_text}), format!("{} (bytes {:?})", expected_text, w), format!("{:?}", g), "compile_clvm_text_maybe_opt (no -O) + clvmr run vs hand-computed call-by-value result")),
+        Err(_) => Some(hit(json!({"source": src}), "no panic".into(), "panic".into(), "compile or run panicked")),
+    }
+}
+fn meaning_cases() -> Vec<(&'static str, &'static str, &'static str)> {
+    vec![
+        ("(mod (X) (defun f (A) (* A 2)) (f (+ X 1)))", "(3)", "8"),
+        ("(mod (X Y) (defun-inline g (A B) (- A B)) (g X Y))", "(10 3)", "7"),
+        ("(mod (P Q R) (defun outer (P Q R) (a (mod (Y Z) (- Y Z)) (list P Q R))) (outer P Q R))", "(5 7 100)", "-2"),
+        ("(mod (P Q) (a (mod (Y Z) (defun h (A B) (+ A (* 2 B))) (h Y Z)) (list P Q)))", "(5 6)", "17"),
+        ("(mod (P Q) (defun outer (P Q) (a (mod (Y Z) (defun h (A B) (+ A (* 2 B))) (h Y Z)) (list P Q))) (outer P Q))", "(5 6)", "17"),
+        ("(mod ((A B) . C) (list A B C))", "((1 2) . 3)", "(1 2 3)"),
+        ("(mod (X) (defun f ((@ whole (P Q)) R) (list whole P Q R)) (f (list X 2) 3))", "(1)", "((1 2) 1 2 3)"),
+        ("(mod (X) (defun F (A B . C) (list A B C)) (F 1 2 &rest X))", "((3 4))", "(1 2 (3 4))"),
+        ("(mod (X) (defun F (A B C D) (list A B C D)) (F 1 &rest X))", "((2 3 4))", "(1 2 3 4)"),
+        ("(mod (X) (defun-inline F (A B C D) (list A B C D)) (F 1 &rest X))", "((2 3 4))", "(1 2 3 4)"),
+        ("(mod (X) (defun-inline F (A B) (list A B)) (F &rest X))", "((2 3))", "(2 3)"),
+        ("(mod (X Y) (let ((p (+ X 1)) (q (* Y 2))) (let* ((s (+ p q)) (t (* s s))) (list p q s t))))", "(1 2)", "(2 4 6 36)"),
+        ("(mod (X) (defun fact (N) (if (= N 1) 1 (* N (fact (- N 1))))) (fact X))", "(5)", "120"),
+        ("(mod (X) (defmacro dbl (A) (qq (+ (unquote A) (unquote A)))) (dbl (* X 3)))", "(2)", "12"),
+        ("(mod (X) (defconstant K 5) (defun-inline addk (A) (+ A K)) (addk (addk X)))", "(1)", "11"),
+    ]
+}
+
+// ---- C16: a constant the REPL reduces an expression to equals what the compiled program returns
+fn chk_repl(defs: &[&str], expr: &str) -> Option<Value> {
+    use chialisp::classic::clvm_tools::binutils::assemble;
+    use chialisp::classic::clvm_tools::stages::stage_0::DefaultProgramRunner;
+    use chialisp::compiler::compiler::DefaultCompilerOpts;
+    use chialisp::compiler::repl::Repl;
+    use std::rc::Rc;
+    let defs_v: Vec<String> = defs.iter().map(|d| d.to_string()).collect();
+    let ex = expr.to_string();
+    let res = catch_unwind(move || {
+        let mut a = clvmr::Allocator::new();
+        let opts = Rc::new(DefaultCompilerOpts::new("*repl*"));
+        let runner = Rc::new(DefaultProgramRunner::new());
+        let mut repl = Repl::new(opts, runner);
+        for d in defs_v.iter() { if repl.process_line(&mut a, d.clone()).is_err() { return None; } }
+        let r = match repl.process_line(&mut a, ex.clone()) { Ok(Some(r)) => r.to_sexp().to_string(), _ => return None };
+        // the REPL answers constants as a quoted value (q . v) or a bare atom
+        let repl_val = assemble(&mut a, &r).ok().and_then(|n| match a.sexp(n) { clvmr::allocator::SExp::Pair(h, t) if a.atom(h).as_ref() == [1u8] => Some(t), clvmr::allocator::SExp::Atom => Some(n), _ => None })
+            .and_then(|n| clvmr::serde::node_to_bytes(&a, n).ok());
+        let prog = format!("(mod () (include *standard-cl-21*) {} {})", defs_v.join(" "), ex);
+        let compiled = compile_and_run(&prog, false, "()").ok().flatten();
+        Some((r, repl_val, compiled))
+    });
+    match res {
+        Ok(Some((text, rv, cv))) if rv.is_some() && cv.is_some() && rv != cv => Some(hit(json!({"definitions": defs, "expression": expr}), format!("compiled program returns {:?}", cv), format!("REPL answered {} = {:?}", text, rv), "compiler::repl::Repl::process_line vs compile + clvmr run of the same definitions and expression")),
+        Err(_) => Some(hit(json!({"expression": expr}), "no panic".into(), "panic".into(), "REPL panicked")),
+        _ => None,
+    }
+}
+
 pub fn search(name: &str, seed: u64) -> Value {
     match name {
+        "repl" => {
+            let cases: Vec<(Vec<&str>, &str)> = vec![
+                (vec![], "(+ 1 2)"),
+                (vec!["(defun fact (N) (if (= N 1) 1 (* N (fact (- N 1)))))"], "(fact 5)"),
+                (vec!["(defun-inline tup (A B) (c A B))", "(defun sum (L) (if L (+ (f L) (sum (r L))) 0))"], "(sum (list 1 2 3 4))"),
+                (vec![], "(assign (V1 V2 V3) (list 1 2 3) V3)"),
+                (vec![], "(assign (V1 V2 V3 V4) (list 1 2 3 4) (list V4 V3 V2 V1))"),
+                (vec![], "(assign (V1 (V2 V3) . V4) (list 1 (list 2 3) 4 5) (list V1 V2 V3 V4))"),
+                (vec!["(defun F (A B . C) (list A B C))"], "(F 1 2 3 4)"),
+                (vec!["(defun G ((@ whole (P Q)) R) (list whole P Q R))"], "(G (list 1 2) 3)"),
+                (vec!["(defconstant K 7)", "(defun addk (A) (+ A K))"], "(addk (addk 1))"),
+                (vec![], "(let ((pa 5) (pb 6)) (let* ((pc (+ pa pb)) (pd (* pc pc))) (list pa pb pc pd)))"),
+            ];
+            for (d, e) in cases.iter() { if let Some(v) = chk_repl(d, e) { return v; } }
+            nf("10 REPL sessions (arithmetic, recursion, inline, assign destructuring of 3/4/nested patterns, rest args, @ capture, constants, let/let*) reduce to the constant the compiled cl21 program returns")
+        }
+        "source_meaning" => {
+            for (b, at, ex) in meaning_cases() { for d in [Some("*standard-cl-21*"), Some("*standard-cl-23*")] {
+                if skipped(&json!({"program": b, "dialect": d, "args": at})) { continue; }
+                if let Some(mut v) = chk_meaning(b, d, at, ex) { v["input"] = json!({"program": b, "dialect": d, "args": at}); return v; }
+            } }
+            nf("15 programs (functions, inlines, nested mod in main / in defun, destructuring, @ capture, rest arguments, let/let*, recursion, macro, constants) x cl21/cl23 return the hand-computed values")
+        }
+        "opt_levels" => {
+            let progs: Vec<(&str, Vec<&str>)> = vec![
+                ("(mod (X) (defun F (A . REST) (c A REST)) (defun G (X) (F (* X 17) &rest (list (* X 17) 2))) (G X))", vec!["(100)", "(0)"]),
+                ("(mod (X Y) (defun sq (A) (* A A)) (if (> (sq X) Y) (+ (sq X) (sq X) Y) (- (sq X) Y)))", vec!["(3 4)", "(1 5)"]),
+                ("(mod (X) (defun-inline dbl (A) (+ A A)) (defun tri (A) (+ A (dbl A))) (let ((q (tri X)) (r (tri X))) (c q (c r (tri (dbl X))))))", vec!["(7)"]),
+                ("(mod (L) (defun len (L) (if L (+ 1 (len (r L))) 0)) (defun sum (L) (if L (+ (f L) (sum (r L))) 0)) (c (len L) (c (sum L) (* (len L) (sum L)))))", vec!["((1 2 3))", "(())"]),
+                ("(mod (A B C D E F G H) (defun pick (A B C D E F G H) (list H G (+ A H) (* B G))) (pick A B C D E F G H))", vec!["(1 2 3 4 5 6 7 8)"]),
+                ("(mod (X) (defconstant K 11) (defun f (A B) (if A (* K (+ A B) (+ A B)) (+ K B))) (assign a (f X 2) b (f a X) (c a b)))", vec!["(0)", "(3)"]),
+                ("(mod ((P Q) R) (defun g ((A B) C) (+ (* A B) (* A B) C)) (g (list P Q) R))", vec!["((2 3) 4)"]),
+                ("(mod (X) (defun fn1 (A B) (+ A B)) (let ((pp (+ X 1))) (fn1 pp X)))", vec!["(3)"]),
+                ("(mod (X) (if X (+ X 1) 2))", vec!["(3)", "(0)"]),
+            ];
+            for (b, argss) in progs.iter() { for at in argss { if skipped(&json!({"program": b, "args": at})) { continue; } if let Some(v) = chk_opt_levels(b, at) { return v; } } }
+            nf("9 programs x argument sets: cl21/cl22/cl23 with -O off and on all agree on the returned value")
+        }
+        "bigint_from_bytes" | "bigint_to_bytes_clvm" | "bigint_to_bytes_unsigned" => {
+            for len in 0..14usize { for pat in 0..6u8 { for signed in [false, true] {
+                let b: Vec<u8> = (0..len).map(|i| match pat { 0 => (i as u8).wrapping_mul(37).wrapping_add(1), 1 => 0xff, 2 => 0x80u8.wrapping_add(i as u8), 3 => if i == 0 { 0 } else { 0xfe }, 4 => if i + 1 == len { 1 } else { 0 }, _ => (0x11u8).wrapping_mul(i as u8 + 1) }).collect();
+                if let Some(v) = chk_bigint_from_bytes(&b, signed) { return v; }
+            } } }
+            nf("bigint_from_bytes agrees with the big-endian spec on 6 byte patterns x lengths 0..13, signed and unsigned")
+        }
+        "symbols" | "add_defun" => {
+            let cases: Vec<(&str, Vec<(&str, &str)>)> = vec![
+                ("(mod (X) (include *standard-cl-21*) (defun f (A) (* A 2)) (defun g (A B) (+ A B)) (g (f X) 1))", vec![("f", "(A)"), ("g", "(A B)")]),
+                ("(mod (X) (include *standard-cl-21*) (defun scale (A B) (* A 2)) (defun dbl (Q) (* Q 2)) (+ (scale X 1) (dbl X)))", vec![("scale", "(A B)"), ("dbl", "(Q)")]),
+                ("(mod (X) (include *standard-cl-21*) (defun dbl (Q) (* Q 2)) (defun scale (A B) (* A 2)) (+ (scale X 1) (dbl X)))", vec![("scale", "(A B)"), ("dbl", "(Q)")]),
+                ("(mod (X) (include *standard-cl-21*) (defun h (A . R) (c A R)) (defun k ((P Q) Z) (+ P Q Z)) (h (k (c X (c 2 ())) 3) 4))", vec![("h", "(A . R)"), ("k", "((P Q) Z)")]),
+                ("(mod (X) (include *standard-cl-23*) (defun fact (N) (if (= N 1) 1 (* N (fact (- N 1))))) (fact X))", vec![("fact", "(N)")]),
+            ];
+            for (i, (srcx, funs)) in cases.iter().enumerate() { if let Some(v) = chk_symbols(srcx, funs, i != 1 && i != 2) { return v; } }
+            nf("symbol entries agree with the emitted program and the source argument lists on 5 programs (incl. two functions with identical code in both orders)")
+        }
         "entry_points" => {
             let bodies = ["(mod (X) (defun f (A) (* A 2)) (f (+ X 1)))", "(mod (X Y) (defun-inline g (A B) (+ A B)) (let ((z (g X Y))) (* z z)))", "(mod (X) (defconstant K 7) (if X (+ K X) K))"];
             for d in ["*standard-cl-21*", "*standard-cl-22*", "*standard-cl-23*"] { for b in bodies { for o in [false, true] {
-                let src = b.replacen("(mod (", &format!("(mod ("), 1);
-                let src = { let idx = src.find(") ").unwrap(); format!("{} (include {}){}", &src[..idx + 1], d, &src[idx + 1..]) };
+                let src = with_dialect(b, d);
                 if let Some(v) = chk_entry_points(&src, o) { return v; }
             } } }
             nf("library entry and tool path emit identical bytes for 3 programs x cl21/cl22/cl23 x optimize on/off")
@@ -463,7 +704,7 @@ pub fn search(name: &str, seed: u64) -> Value {
             for dialect in ["*standard-cl-21*", "*standard-cl-23*"] { for shadow in [false, true] {
                 if let Some(v) = deps_case(dialect, shadow) { return v; }
             } }
-            nf("dependency listing contains every file read (include, nested include, embed-file bin/hex) and respects search-path order, in cl21 and cl23")
+            nf("dependency listing contains every file read (include, include of a file whose name starts with *, embed-file bin/hex), no pseudo-file, and respects search-path order, in cl21 and cl23")
         }
         "advance" | "srcloc" | "combine_src_location" | "ext" | "add_onto" | "len" | "ending" | "src_location_max" | "src_location_min" | "from_pair" => {
             for col in 1..70usize { for ch in 0u16..=255 { if let Some(v) = chk_advance(3, col, ch as u8) { return v; } } }
@@ -503,6 +744,7 @@ pub fn search(name: &str, seed: u64) -> Value {
 
 pub fn run_input(name: &str, input: &Value) -> Value {
     match name {
+        "opt_levels" => chk_opt_levels(input["program"].as_str().unwrap_or(""), input["args"].as_str().unwrap_or("()")).unwrap_or_else(|| nf("input does not violate the contract on this tree")),
         "modern_print" => chk_modern_print(&bytes(&input["clvm_bytes"])).unwrap_or_else(|| nf("input does not violate the contract on this tree")),
         "disassemble" | "ir_for_atom" | "consume_quoted" | "pybytes_repr" => chk_disasm(&bytes(&input["clvm_bytes"])).unwrap_or_else(|| nf("input does not violate the contract on this tree")),
         "advance" | "srcloc" => chk_advance(input["line"].as_u64().unwrap_or(1) as usize, input["col"].as_u64().unwrap_or(1) as usize, input["ch"].as_u64().unwrap_or(0) as u8).unwrap_or_else(|| nf("input does not violate the contract on this tree")),
